@@ -40,51 +40,79 @@ type Model struct {
 
 func New(o Opts) *Model { return &Model{O: o} }
 
-// waitQuiescent polls until follower and worker have nothing left to do.
-func waitQuiescent(w *world.World, d time.Duration) bool {
-	deadline := time.Now().Add(d)
+// waitOutcome of one wait for the restarted follower and worker.
+type waitOutcome int
+
+const (
+	waitIdle    waitOutcome = iota // nothing queued, every wallet ready or gone
+	waitStalled                    // nothing queued, nothing committed for the whole stall window, yet a wallet is unfinished
+	waitTimeout                    // still busy when the overall limit was reached
+)
+
+// waitQuiescent polls until follower and worker have nothing left to do. It tells "still
+// working" from "nobody works on it any more": the queues are empty, the database has not
+// been committed to for stallWindow, and a wallet is still importing or removing.
+func waitQuiescent(w *world.World, progress func() int, limit, stallWindow time.Duration) (waitOutcome, string) {
+	deadline := time.Now().Add(limit)
+	last, lastChange := "", time.Now()
+	unfinished := ""
 	for time.Now().Before(deadline) {
 		qb, qt, tk := w.I.W.VerifQueueLens()
-		if qb == 0 && qt == 0 && tk == 0 {
-			ws, err := w.I.W.Wallets()
-			busy := false
-			if err == nil {
-				for _, s := range ws {
-					if !s.Status.Ready() || s.Status.IsRemoved() {
-						busy = true
-					}
+		ws, err := w.I.W.Wallets()
+		busy := err != nil
+		unfinished = ""
+		sig := fmt.Sprint(qb, qt, tk, progress())
+		if err == nil {
+			for _, s := range ws {
+				sig += fmt.Sprint(s.WalletID, s.Status.SyncedHeight, s.Status.IsRemoved())
+				if !s.Status.Ready() || s.Status.IsRemoved() {
+					busy = true
+					unfinished = s.WalletID
 				}
 			}
-			if !busy {
-				return true
-			}
+		}
+		if qb == 0 && qt == 0 && tk == 0 && !busy {
+			return waitIdle, ""
+		}
+		if sig != last {
+			last, lastChange = sig, time.Now()
+		} else if qb == 0 && qt == 0 && tk == 0 && unfinished != "" && time.Since(lastChange) > stallWindow {
+			return waitStalled, unfinished
 		}
 		time.Sleep(2 * time.Millisecond)
 	}
-	return false
+	return waitTimeout, unfinished
 }
 
 // Recover restarts the wallet on the same database the way the loader does: new manager,
 // NtfnsHandler.Start (synchronous catch-up, then follower + worker goroutines), wait until
-// both are idle, Stop (which closes the database), and reopen for observation.
-func Recover(w *world.World) (string, error) {
-	if err := w.Restart(); err != nil {
-		return "", fmt.Errorf("wallet does not open after the crash: %v", err)
+// both are idle, Stop (which closes the database), and reopen for observation. A stall
+// (see waitQuiescent) is believed only if a SECOND restart on the same database stalls too.
+func Recover(w *world.World, progress func() int) (string, error) {
+	for attempt := 0; ; attempt++ {
+		if err := w.Restart(); err != nil {
+			return "", fmt.Errorf("wallet does not open after the crash: %v", err)
+		}
+		if err := w.I.W.VerifHandlerStart(); err != nil {
+			return "", fmt.Errorf("start-up catch-up failed: %v", err)
+		}
+		out, who := waitQuiescent(w, progress, 40*time.Second, 4*time.Second)
+		w.I.W.VerifHandlerStop()
+		// Stop closed the database; reopen the same store to observe
+		w.I.Raw = nil
+		if err := w.ReopenAfterStop(); err != nil {
+			return "", fmt.Errorf("wallet does not reopen after stop: %v", err)
+		}
+		switch out {
+		case waitIdle:
+			return "", nil
+		case waitTimeout:
+			return "inconclusive: follower/worker still busy 40 s after restart", nil
+		}
+		if attempt >= 1 {
+			return "", fmt.Errorf("after restart nobody resumes the background work of wallet %s: task queue and tip queue empty, no database commit for 4 s, wallet still unfinished (observed on two consecutive restarts)", who)
+		}
 	}
-	if err := w.I.W.VerifHandlerStart(); err != nil {
-		return "", fmt.Errorf("start-up catch-up failed: %v", err)
-	}
-	ok := waitQuiescent(w, 20*time.Second)
-	w.I.W.VerifHandlerStop()
-	if !ok {
-		return "inconclusive: follower/worker not idle 20 s after restart", nil
-	}
-	// Stop closed the database; reopen the same store to observe
-	w.I.Raw = nil
-	if err := w.ReopenAfterStop(); err != nil {
-		return "", fmt.Errorf("wallet does not reopen after stop: %v", err)
-	}
-	return "", nil
 }
 
 func (m *Model) Run(hist []string) *proto.Result {
@@ -232,7 +260,7 @@ func (m *Model) Run(hist []string) *proto.Result {
 		for len(w.N.Queue) > 0 {
 			w.N.Pop()
 		}
-		note, err := Recover(w)
+		note, err := Recover(w, func() int { return seam.Committed })
 		if err != nil {
 			res.Viol = append(res.Viol, err.Error())
 			res.Outcome = "recover-failed"
